@@ -258,7 +258,7 @@ def big_value_cases():
 
 
 def line_break_and_odd_value_cases():
-    """strings that END in a line break (`$` matches before it, `\Z` does not), contain one, or a NUL, against every str
+    r"""strings that END in a line break (`$` matches before it, `\Z` does not), contain one, or a NUL, against every str
     constraint; UUIDs whose variant is not RFC 4122 (`.version` is None: nil, max, NCS, Microsoft) against uuid4 schemas;
     sets whose members cannot be ordered against each other — at the root and nested"""
     import uuid
